@@ -504,6 +504,34 @@ def check_variants(ctx):
                          "embedding": emb is not None,
                          "err": f"{type(e).__name__}: {e}"},
                         {"kind": "exception"})
+            # recurrence network of a series with missing samples: R of the
+            # plot, the states holding a missing value removed, no self-loops
+            xn = x.copy()
+            for r in rng.sample(range(n), rng.randint(1, max(1, n // 4))):
+                xn[r, rng.randrange(xn.shape[1])] = np.nan
+            try:
+                gm = RecurrenceNetwork(xn, metric=m, threshold=1.5,
+                                       missing_values=True, silence_level=3)
+                pm = RecurrencePlot(xn, metric=m, threshold=1.5,
+                                    missing_values=True, silence_level=3)
+                keep = ~np.isnan(np.asarray(pm.embedding, float)).any(axis=1)
+                Rm = np.asarray(pm.recurrence_matrix()).astype(int)
+                wantA = Rm[np.ix_(keep, keep)].copy()
+                np.fill_diagonal(wantA, 0)
+                gotA = np.asarray(gm.adjacency).astype(int)
+                if gotA.shape != wantA.shape or not np.array_equal(gotA,
+                                                                  wantA):
+                    ctx.violation("RecurrenceNetwork.adjacency",
+                                  "with missing values is not R restricted "
+                                  "to the complete states, without diagonal",
+                                  dict(key, x=[[None if np.isnan(v) else
+                                                float(v) for v in r]
+                                               for r in xn]),
+                                  {"missing_values": True})
+            except Exception as e:
+                ctx.violation("RecurrenceNetwork(missing_values=True)",
+                              "raises", dict(key, err=f"{type(e).__name__}: "
+                                             f"{e}"), {"kind": "exception"})
             # recurrence network = R without diagonal
             g = RecurrenceNetwork(x, metric=m, threshold=1.5, silence_level=3)
             Rn = np.asarray(g.recurrence_matrix()).astype(int)
